@@ -63,7 +63,10 @@ func (k Keeper) GetRewardDenoms(ctx sdk.Context, poolId uint64) []string {
 		return []string{}
 	}
 
-	if poolInfo.EnableEdenRewards {
+	// Eden has to stay in the list once it was ever distributed to the pool: a deposit or withdrawal made
+	// while Eden rewards are switched off must still checkpoint the user against the accumulated value
+	_, edenDistributed := k.GetPoolRewardInfo(ctx, poolId, ptypes.Eden)
+	if poolInfo.EnableEdenRewards || edenDistributed {
 		keys = append(keys, ptypes.Eden)
 	}
 
